@@ -525,6 +525,17 @@ def selftest(mod, tier, seed, root, n=200):
                 raise HarnessError('probes never reached in %d runs: %r (the workload mix must change)'
                                    % (total['runs'], missing))
             print('reach: all %d required probes hit in %d runs' % (len(req), total['runs']))
+        mut = getattr(mod, 'SELFTEST_MUTANT', None)
+        if mut:
+            # sensitivity: break the property on purpose in a scratch copy, the quick check must fail
+            p = subprocess.run([sys.executable, '-B', os.path.join(VERIF_DIR, 'tools', 'mutants.py'),
+                                mod.PROPERTY, mut, '--budget', '5'], capture_output=True, text=True, timeout=900)
+            line = [l for l in p.stdout.splitlines() if l.startswith('{')]
+            res = json.loads(line[0]) if line else {}
+            if res.get('exit') != 1:
+                raise HarnessError('sensitivity: seeded mutant %r was NOT detected (%r)' % (mut, res or p.stdout[-300:]))
+            print('sensitivity: mutant %r applied to a scratch copy is detected (%s) in %.0fs'
+                  % (mut, ','.join(res.get('classes', [])), res.get('wall_s', 0)))
     except HarnessError as e:
         print('HARNESS-ERROR %s' % e, flush=True)
         return 2
